@@ -168,6 +168,8 @@ def run_one(sim, params):
                         return target
                     clf.connect(card={"on-startup": on_startup, "timeout": arg["timeout"]},
                                 terminate=terminate_at(k.now() + arg["dur"]))
+            except KeyboardInterrupt:
+                probes("op_interrupted." + op)        # what an application does on Ctrl-C: it goes on (cleans up, closes)
             except Exception as e:
                 errors.append((name, op, e))
                 probes("op_raised." + type(e).__name__)
@@ -232,6 +234,17 @@ def run_one(sim, params):
         if sim.chance("line.preempt", 0.6):
             k.enable_line_preemption([clfmod], sim.pick("line.p", [0.005, 0.03, 0.1]))
         tasks = []
+        if env == "tags" and sim.chance("ctrl_c", 0.4):
+            # app0 plays the main thread: a Ctrl-C (KeyboardInterrupt raised by the signal handler) may end any sleep
+            # it does inside the frontend
+            p_int = sim.pick("ctrl_c.p", [0.15, 0.5])
+
+            def interrupt(task, module):
+                if task.name == "app0" and module.startswith("nfc.clf") and sim.chance("ctrl_c.now", p_int):
+                    sim.fault("keyboard_interrupt_in_sleep")
+                    return KeyboardInterrupt()
+                return None
+            k.sleep_interrupt = interrupt
         if net is not None:
             p = k.spawn(peer, name="peer", node="B", daemon=True)
             p.no_stall = True
